@@ -10,6 +10,7 @@ mod exec;
 mod gen;
 mod model;
 mod ops;
+mod orderpair;
 mod profiles;
 mod report;
 mod scale;
@@ -276,6 +277,12 @@ fn do_run(rc: &RunCfg<'_>, run: u64) {
     st(St::runs, 1);
     let mut run_digest;
     match p.mode {
+        Mode::Plain if p.name == "C08" && cfg_rng.chance(1, 4) => {
+            // order independence of the bookkeeping: two routes to the same ledger
+            let mut rng = Rng(mix(rc.seed, run, 7));
+            let pair = orderpair::generate(&mut rng, rc.thorough);
+            run_digest = order_pair(p.name, rc.seed, run, &pair.a, &pair.b, pair.tail, layout_seed, &opts);
+        }
         Mode::Plain => {
             let head = ctx_head(p.name, rc.seed, run, 0, &[layout_seed], &none);
             let o = execute(&head, Source::Generate { kn: &kn, hist_seed }, &none, layout_seed, &opts);
@@ -320,7 +327,9 @@ fn do_run(rc: &RunCfg<'_>, run: u64) {
             run_digest = diff_one(p.name, rc.seed, run, &prog, layout_seed);
         }
         Mode::AbortEnum => {
-            report::F_C16.store(true, Relaxed);
+            // the fault-free base execution is judged like any other history; only the
+            // clone/drop scenarios belong to C16
+            report::F_C16.store(false, Relaxed);
             opts.record_dtors = true;
             let head = ctx_head(p.name, rc.seed, run, 0, &[layout_seed], &none);
             let base = execute(&head, Source::Generate { kn: &kn, hist_seed }, &none, layout_seed, &opts);
@@ -391,6 +400,36 @@ fn do_run(rc: &RunCfg<'_>, run: u64) {
     }
 }
 
+/// C08 order independence: execute both routes, compare what the common release
+/// sequence destroyed and left behind.
+fn order_pair(pname: &str, seed: u64, run: u64, a: &[Op], b: &[Op], tail: usize, layout_seed: u64, opts: &ExecOpts) -> u64 {
+    let none = Faults::default();
+    let head = ctx_head(pname, seed, run, 0, &[layout_seed], &none);
+    let oa = execute(&head, Source::Explicit(a), &none, layout_seed, opts);
+    note_case(pname, &oa, &none, 1);
+    let head_b = format!(
+        "{{\"type\":\"violation\",\"profile\":\"{pname}\",\"seed\":{seed},\"run\":{run},\"exec\":1,\"layouts\":[{layout_seed}],\"faults\":\"\",\"tail\":{tail},\"ops_a\":\"{}\",\"ops\":\"",
+        json_escape(&ops_text(a))
+    );
+    let ob = execute(&head_b, Source::Explicit(b), &none, layout_seed, opts);
+    note_case(pname, &ob, &none, 2);
+    st(St::p_order_pairs, 1);
+    let (la, lb) = (oa.call_digests.len(), ob.call_digests.len());
+    if la < tail || lb < tail {
+        report::harness_error("order pair: fewer executed calls than the common tail");
+    }
+    if oa.call_digests[la - tail..] != ob.call_digests[lb - tail..] {
+        let at = (0..tail).find(|&i| oa.call_digests[la - tail + i] != ob.call_digests[lb - tail + i]).unwrap_or(0);
+        report::STEP.store((b.len() - tail + at) as u32, Relaxed);
+        report::violation(
+            "order-dependence",
+            "same-ledger-different-collection",
+            &format!("two call sequences that record the same adoptions and store the same handles, in different orders, were followed by the same {tail} releases; release #{at} destroyed a different set of objects or left different counts"),
+        );
+    }
+    fnv(oa.digest, ob.digest)
+}
+
 /// C16: one scenario in a grandchild whose abort-like signals have their default
 /// disposition. Returns true if the scenario behaved as the property requires.
 fn c16_scenario(pname: &str, head: &str, ops: &[Op], f: &Faults, layout_seed: u64, opts: &ExecOpts, count: bool) -> bool {
@@ -401,6 +440,14 @@ fn c16_scenario(pname: &str, head: &str, ops: &[Op], f: &Faults, layout_seed: u6
         s.c16_flags = 0;
         s.printed = 0;
     }
+    report::F_C16.store(true, Relaxed);
+    struct Unflag;
+    impl Drop for Unflag {
+        fn drop(&mut self) {
+            report::F_C16.store(false, Relaxed);
+        }
+    }
+    let _unflag = Unflag;
     // render the context before forking so that the parent can report for the child
     report::ctx_begin(head);
     let before = sh().stats;
@@ -664,7 +711,6 @@ fn replay(a: &Args) -> i32 {
     let seed = a.num("--seed", 0);
     let run = a.num("--run", 0);
     if profile.mode == Mode::AbortEnum && !faults.is_empty() {
-        report::F_C16.store(true, Relaxed);
         let head = ctx_head(pname, seed, run, 1, &layouts[..1], &faults);
         let ok = c16_scenario(pname, &head, &ops, &faults, layouts[0], &opts, true);
         if ok {
@@ -672,6 +718,13 @@ fn replay(a: &Args) -> i32 {
             return 0;
         }
         return alloc::EXIT_VIOLATION;
+    }
+    if let Some(ops_a) = a.get("--ops-a") {
+        let oa = ops::parse_ops(ops_a, ';').unwrap_or_else(|e| die(&e));
+        let tail = a.num("--tail", 1) as usize;
+        order_pair(pname, seed, run, &oa, &ops, tail, layouts[0], &opts);
+        out("{\"type\":\"ok\"}\n");
+        return 0;
     }
     let mut base: Option<ExecOut> = None;
     for (i, &l) in layouts.iter().enumerate() {
